@@ -994,3 +994,87 @@ class SpecEval:
                 s = self._val(n.func.value)
                 return SV(mk_int(str_count_nl(as_s(s.term))), T.INT)
         raise Unsupported("spec call " + ast.unparse(n))
+
+
+_CN_MEMO: dict = {}
+
+
+def _const_names_one(f) -> frozenset:
+    """names of the uninterpreted constants of one formula (memoised per top-level formula: path conditions share them)"""
+    k = f.get_id()
+    hit = _CN_MEMO.get(k)
+    if hit is not None and hit[0].eq(f):
+        return hit[1]
+    names: set = set()
+    seen: set = set()
+    stack = [f]
+    while stack:
+        e = stack.pop()
+        if e.get_id() in seen:
+            continue
+        seen.add(e.get_id())
+        if z3.is_quantifier(e):
+            stack.append(e.body())
+        elif z3.is_app(e):
+            if e.num_args() == 0 and e.decl().kind() == z3.Z3_OP_UNINTERPRETED:
+                names.add(e.decl().name())
+            stack.extend(e.children())
+    out = frozenset(names)
+    if len(_CN_MEMO) > 20000:
+        _CN_MEMO.clear()
+    _CN_MEMO[k] = (f, out)
+    return out
+
+
+def _const_names(exprs) -> set:
+    names: set = set()
+    for f in exprs:
+        names |= _const_names_one(f)
+    return names
+
+
+def relevant_only(vc: "VC") -> "VC":
+    """The well-typed-heap axioms (one per declared field of every class any contract module declares: `for all objects r
+    allocated at entry, r.<field> has its declared type`) are part of every path condition.  An axiom about a field whose
+    heap component occurs nowhere else in the obligation cannot take part in a proof of it; with ~90 of them the solver's
+    instantiation engine becomes chaotic (the same obligation: 0.03 s or > 100 s depending on the process).  They are left
+    out - dropping hypotheses is sound."""
+    import re as _re
+    from dataclasses import replace as _replace
+
+    axioms = []
+    rest = []
+    for f in vc.pc:
+        if z3.is_quantifier(f) and f.is_forall() and f.num_vars() == 1 and f.var_name(0) == "r!wt":
+            axioms.append(f)
+        else:
+            rest.append(f)
+    if not axioms:
+        return vc
+    used = _const_names(rest + [vc.goal])
+    used_fields = set()
+    for n in used:
+        m = _re.search(r"f\.([A-Za-z_][A-Za-z_0-9]*)(?:!\d+)?$", n)
+        if m:
+            used_fields.add(m.group(1))
+    keep = []
+    for a in axioms:
+        flds = set()
+        for n in _const_names([a]):
+            m = _re.search(r"f\.([A-Za-z_][A-Za-z_0-9]*)(?:!\d+)?$", n)
+            if m:
+                flds.add(m.group(1))
+        if not flds or flds & used_fields:
+            keep.append(a)
+    if len(keep) == len(axioms):
+        return vc
+    keepset = {a.get_id() for a in keep}
+    new_pc = tuple(f for f in vc.pc if not (z3.is_quantifier(f) and f.is_forall() and f.num_vars() == 1 and f.var_name(0) == "r!wt") or f.get_id() in keepset)
+    try:
+        return _replace(vc, pc=new_pc)
+    except TypeError:
+        import copy as _copy
+
+        v2 = _copy.copy(vc)
+        v2.pc = new_pc
+        return v2
